@@ -71,6 +71,13 @@ Stmts ==
                        {SelWhere(JoinOf(sub, TB, "inner", Lt(Col(sub, "x"), Bx)), <<Col(sub, "y"), Bx>>, w2) :
                            w2 \in {NilF} \cup Preds({Eq(Bx, L1), Eq(Col(sub, "x"), L1)}, 1)} :
                        w1 \in {NilF, Eq(Ax, L1)}}
+           \* the same table in two query contexts of one statement: two nested statements over A joined together, and a
+           \* nested statement over A joined with A itself - each occurrence has its own columns and filter
+           \cup UNION {LET s1 == RefOf(SelWhere(TA, <<Ax, Ay>>, w1), "s")
+                           s2 == RefOf(SelWhere(TA, <<Ax, Ay>>, w2), "t") IN
+                       {SelWhere(JoinOf(s1, s2, "inner", Lt(Col(s1, "x"), Col(s2, "x"))), <<Col(s1, "y"), Col(s2, "y")>>, NilF),
+                        SelWhere(JoinOf(s1, TA, "inner", Lt(Col(s1, "x"), Ax)), <<Col(s1, "y"), Ay>>, w2)} :
+                       w1 \in {Eq(Ax, L1), Eq(Ay, L0)}, w2 \in {NilF, Eq(Ay, L0), Eq(Ax, L1)}}
       [] Family = "three" ->       \* joins of three tables, conditions and where spanning them
            {Where(JoinOf(JoinOf(TA, TB, k1, c1), TC, k2, c2), w) :
                 k1 \in {"inner", "left"}, k2 \in {"inner", "left", "right"},
